@@ -453,7 +453,9 @@ func (h *DNSHandler) ProcessMDNS(frame packet.Frame) (ipv4 []packet.IPNameEntry,
 			r, err := p.PTRResource()
 			if err != nil {
 				LoggerMDNS.Msg("invalid PTR resource").String("name", hdr.Name.String()).Error(err).Write()
-				p.SkipAnswer()
+				if err := skipResource(&p, section); err != nil {
+					return ipv4, ipv6, err
+				}
 				continue
 			}
 			if Debug {
@@ -478,7 +480,9 @@ func (h *DNSHandler) ProcessMDNS(frame packet.Frame) (ipv4 []packet.IPNameEntry,
 				} else {
 					LoggerMDNS.Msg("invalid SRV resource").String("name", hdr.Name.String()).Error(err).Write()
 				}
-				p.SkipAnswer()
+				if err := skipResource(&p, section); err != nil {
+					return ipv4, ipv6, err
+				}
 				continue
 			}
 			if Debug {
@@ -489,7 +493,9 @@ func (h *DNSHandler) ProcessMDNS(frame packet.Frame) (ipv4 []packet.IPNameEntry,
 			r, err := p.TXTResource()
 			if err != nil {
 				LoggerMDNS.Msg("invalid TXT resource").String("name", hdr.Name.String()).Error(err).Write()
-				p.SkipAnswer()
+				if err := skipResource(&p, section); err != nil {
+					return ipv4, ipv6, err
+				}
 				continue
 			}
 			if m := parseTXT(r.TXT); m != "" {
@@ -504,7 +510,9 @@ func (h *DNSHandler) ProcessMDNS(frame packet.Frame) (ipv4 []packet.IPNameEntry,
 			if err != nil {
 				// fmt.Printf("mdns  : error invalid OPT resource name=%s error=[%s]\n", hdr.Name, err)
 				LoggerMDNS.Msg("invalid OPT resource").String("name", hdr.Name.String()).Error(err).Write()
-				p.SkipAnswer()
+				if err := skipResource(&p, section); err != nil {
+					return ipv4, ipv6, err
+				}
 				continue
 			}
 			if Debug {
@@ -516,14 +524,29 @@ func (h *DNSHandler) ProcessMDNS(frame packet.Frame) (ipv4 []packet.IPNameEntry,
 				// fmt.Printf("mdns  : NSEC resource type not implemented %+v\n", hdr)
 				LoggerMDNS.Msg("NSEC resource not implemented").String("name", hdr.Name.String()).Sprintf("hdr", hdr).Write()
 			}
-			p.SkipAnswer()
+			if err := skipResource(&p, section); err != nil {
+				return ipv4, ipv6, err
+			}
 
 		default:
 			// fmt.Printf("mdns  : error unexpected resource type %+v\n", hdr)
 			LoggerMDNS.Msg("ignoring unexpected resource type").String("name", hdr.Name.String()).Sprintf("hdr", hdr).Write()
-			p.SkipAnswer()
+			if err := skipResource(&p, section); err != nil {
+				return ipv4, ipv6, err
+			}
 		}
 	}
+}
+
+// skipResource skips the body of the current resource in the section being parsed.
+func skipResource(p *dnsmessage.Parser, section string) error {
+	switch section {
+	case "authority":
+		return p.SkipAuthority()
+	case "additional":
+		return p.SkipAdditional()
+	}
+	return p.SkipAnswer()
 }
 
 func mustNewName(name string) dnsmessage.Name {
